@@ -10,6 +10,7 @@
   No Mathlib.  calc() is not modelled (as in Model/Style.lean).
 -/
 import TaffyVerif.Model.Style
+-- (the track-sizing-function types live in Model/GridTypes.lean, which Model/Style.lean imports)
 
 namespace GridTracks
 
@@ -32,27 +33,6 @@ def sumF {α : Type} [Num α] (l : List α) : α := l.foldl (· + ·) (-(0 : α)
 def u16Max : Nat := 65535
 
 /-! ### track sizing functions (style/grid.rs) -/
-
-/-- `MinTrackSizingFunction` (public constructors; `From<LengthPercentage>` for gutters) -/
-inductive MinTrack (α : Type) where
-  | length (v : α)
-  | percent (v : α)
-  | auto
-  | minContent
-  | maxContent
-deriving Repr, BEq, DecidableEq, Inhabited
-
-/-- `MaxTrackSizingFunction` -/
-inductive MaxTrack (α : Type) where
-  | length (v : α)
-  | percent (v : α)
-  | auto
-  | minContent
-  | maxContent
-  | fitContentPx (v : α)
-  | fitContentPercent (v : α)
-  | fr (v : α)
-deriving Repr, BEq, DecidableEq, Inhabited
 
 namespace MinTrack
 variable {α : Type} [Num α]
@@ -147,31 +127,12 @@ def ofLP : LP α → MaxTrack α
   | .percent v => .percent v
 end MaxTrack
 
-/-- `NonRepeatedTrackSizingFunction = MinMax<MinTrackSizingFunction, MaxTrackSizingFunction>` -/
-structure TrackFn (α : Type) where
-  min : MinTrack α
-  max : MaxTrack α
-deriving Repr, BEq, DecidableEq, Inhabited
-
 namespace TrackFn
 variable {α : Type} [Num α]
 /-- `NonRepeatedTrackSizingFunction::AUTO` -/
 def auto : TrackFn α := ⟨.auto, .auto⟩
 def hasFixedComponent (f : TrackFn α) : Bool := f.min.isLengthOrPercentage || f.max.isLengthOrPercentage
 end TrackFn
-
-/-- `GridTrackRepetition` -/
-inductive Repetition where
-  | autoFill
-  | autoFit
-  | count (n : Nat)
-deriving Repr, BEq, DecidableEq, Inhabited
-
-/-- `TrackSizingFunction` -/
-inductive TrackDef (α : Type) where
-  | single (f : TrackFn α)
-  | rep (r : Repetition) (fs : List (TrackFn α))
-deriving Repr, BEq, DecidableEq, Inhabited
 
 namespace TrackDef
 variable {α : Type}
